@@ -84,9 +84,13 @@ def flat_cells(kind, cells):
     return [c for r in cells for c in r]
 
 
-def make_index(rs, cs, has_cs, form="tuple"):
+def make_index(rs, cs, has_cs, form="tuple", ellpad=0):
+    """the index expression; ellpad 1..3 writes the two-selector form with a (redundant) Ellipsis before, between or after
+    the selectors -- as in numpy, a[..., r, c] == a[r, ..., c] == a[r, c, ...] == a[r, c] for two-dimensional data"""
     if not has_cs:
         return rs
+    if ellpad and rs is not Ellipsis:
+        return {1: (Ellipsis, rs, cs), 2: (rs, Ellipsis, cs), 3: (rs, cs, Ellipsis)}[ellpad]
     return (rs, cs)
 
 
